@@ -36,6 +36,7 @@ let parse_op (s : string) : op =
   | ["data"; h] -> OData (z_of_dec h)
   | ["info"; h] -> OInfo (z_of_dec h)
   | ["rlimit"] -> ORLimit
+  | ["reset"] -> OReset true        (* Message.Reset: re-arms Message.initReadLimit's value *)
   | ["walk"; h; d; p; f] -> OWalk (z_of_dec h, z_of_dec d, z_of_dec p, z_of_dec f)
   | _ -> failwith ("bad op " ^ s)
 
